@@ -93,6 +93,11 @@ class LocalStorage(Storage):
         if file_path.parent != key_path:
             raise StorageError((f"Filename '{filename}' should only reference a directory directly "
                                 f"under the storage key directory '{key_path}'"))
+        if file_path.is_symlink():
+            # resolve() gives up on symlink loops and returns the rest of
+            # the path unresolved, which could then lead outside the key
+            # directory when opened.
+            raise StorageError(f"Filename '{filename}' must not reference an unresolved symbolic link")
         return file_path.open(mode=mode)
 
     def delete(self, key: str):
